@@ -51,7 +51,7 @@ abbrev toRes (r : Result) : Files.Result := toRes_l r
 example (p : Path) : toId p = ⟨p.dir, p.leaf⟩ := rfl
 example (r : Result) : toRes r = ⟨r.exports, r.visible, r.parsed.map toId⟩ := rfl
 example (fs : List Files.File) :
-    (ofFiles fs).entries = fs.map (fun f => ⟨⟨f.id.dir, f.id.leaf⟩, ⟨f.id.dir, f.id.leaf⟩⟩) ∧
+    (ofFiles fs).entries = fs.map (fun f => ⟨⟨f.id.dir, f.id.leaf⟩, ⟨f.id.dir, f.id.leaf⟩, ⟨f.id.dir, f.id.leaf⟩⟩) ∧
     (ofFiles fs).files = fs.map (fun f => ⟨⟨f.id.dir, f.id.leaf⟩, f.includes, f.defines⟩) := ⟨rfl, rfl⟩
 
 /-- `Files.processMains` with the fuel as a parameter; `Files.processMains` is the instance `4 * fs.length + 4` -/
@@ -188,8 +188,8 @@ example :
 /-- two inputs `p/a` and `q/b` include `t`, which is in both directories a link to `real/t`; `real/t` includes `u`, found
     next to the real file from both sides -/
 def fsShared : FS :=
-  ⟨[⟨⟨"p", "a"⟩, ⟨"p", "a"⟩⟩, ⟨⟨"q", "b"⟩, ⟨"q", "b"⟩⟩, ⟨⟨"real", "t"⟩, ⟨"real", "t"⟩⟩, ⟨⟨"real", "u"⟩, ⟨"real", "u"⟩⟩,
-    ⟨⟨"p", "t"⟩, ⟨"real", "t"⟩⟩, ⟨⟨"q", "t"⟩, ⟨"real", "t"⟩⟩],
+  ⟨[⟨⟨"p", "a"⟩, ⟨"p", "a"⟩, ⟨"p", "a"⟩⟩, ⟨⟨"q", "b"⟩, ⟨"q", "b"⟩, ⟨"q", "b"⟩⟩, ⟨⟨"real", "t"⟩, ⟨"real", "t"⟩, ⟨"real", "t"⟩⟩, ⟨⟨"real", "u"⟩, ⟨"real", "u"⟩, ⟨"real", "u"⟩⟩,
+    ⟨⟨"p", "t"⟩, ⟨"real", "t"⟩, ⟨"real", "t"⟩⟩, ⟨⟨"q", "t"⟩, ⟨"real", "t"⟩, ⟨"real", "t"⟩⟩],
    [⟨⟨"p", "a"⟩, ["t"], ["A"]⟩, ⟨⟨"q", "b"⟩, ["t"], ["B"]⟩, ⟨⟨"real", "t"⟩, ["u"], ["T"]⟩, ⟨⟨"real", "u"⟩, [], ["U"]⟩]⟩
 
 /-- with links present, one real file reached through two paths (`p/t`, `q/t`), the run succeeds: the hypotheses of
@@ -215,9 +215,9 @@ example : (match processMains fsShared [] [⟨"q", "b"⟩, ⟨"p", "a"⟩] {} wi
     `p/t -> dirA/t` and, from `p/t`, `x` is `p/x`.  `real/b` includes `y` and finds `real/y` itself; from there `t` is
     `inc2/t -> dirA/t` (the SAME real file: the direct includes of `real/y` agree) but, from `inc2/t`, `x` is `inc/x`. -/
 def fsTwoLevel : FS :=
-  ⟨[⟨⟨"p", "a"⟩, ⟨"p", "a"⟩⟩, ⟨⟨"real", "b"⟩, ⟨"real", "b"⟩⟩, ⟨⟨"dirA", "t"⟩, ⟨"dirA", "t"⟩⟩,
-    ⟨⟨"real", "y"⟩, ⟨"real", "y"⟩⟩, ⟨⟨"p", "y"⟩, ⟨"real", "y"⟩⟩, ⟨⟨"p", "t"⟩, ⟨"dirA", "t"⟩⟩,
-    ⟨⟨"inc2", "t"⟩, ⟨"dirA", "t"⟩⟩, ⟨⟨"p", "x"⟩, ⟨"p", "x"⟩⟩, ⟨⟨"inc", "x"⟩, ⟨"inc", "x"⟩⟩],
+  ⟨[⟨⟨"p", "a"⟩, ⟨"p", "a"⟩, ⟨"p", "a"⟩⟩, ⟨⟨"real", "b"⟩, ⟨"real", "b"⟩, ⟨"real", "b"⟩⟩, ⟨⟨"dirA", "t"⟩, ⟨"dirA", "t"⟩, ⟨"dirA", "t"⟩⟩,
+    ⟨⟨"real", "y"⟩, ⟨"real", "y"⟩, ⟨"real", "y"⟩⟩, ⟨⟨"p", "y"⟩, ⟨"real", "y"⟩, ⟨"real", "y"⟩⟩, ⟨⟨"p", "t"⟩, ⟨"dirA", "t"⟩, ⟨"dirA", "t"⟩⟩,
+    ⟨⟨"inc2", "t"⟩, ⟨"dirA", "t"⟩, ⟨"dirA", "t"⟩⟩, ⟨⟨"p", "x"⟩, ⟨"p", "x"⟩, ⟨"p", "x"⟩⟩, ⟨⟨"inc", "x"⟩, ⟨"inc", "x"⟩, ⟨"inc", "x"⟩⟩],
    [⟨⟨"p", "a"⟩, ["y"], ["A"]⟩, ⟨⟨"real", "b"⟩, ["y"], ["B"]⟩, ⟨⟨"dirA", "t"⟩, ["x"], ["T"]⟩,
     ⟨⟨"real", "y"⟩, ["t"], ["Y"]⟩, ⟨⟨"p", "x"⟩, [], ["XP"]⟩, ⟨⟨"inc", "x"⟩, [], ["XI"]⟩]⟩
 
@@ -243,8 +243,8 @@ example :
 
 /-- the direct includes of `real/y` do resolve to the same real file from both paths (what a one-level check compares) -/
 example :
-    (find fsTwoLevel "t" (searchDirs fsTwoLevel ["inc2", "inc"] ⟨"p", "y"⟩)).bind (real fsTwoLevel) = some ⟨"dirA", "t"⟩ ∧
-    (find fsTwoLevel "t" (searchDirs fsTwoLevel ["inc2", "inc"] ⟨"real", "y"⟩)).bind (real fsTwoLevel) = some ⟨"dirA", "t"⟩ := by
+    (find fsTwoLevel "t" (searchDirs fsTwoLevel ["inc2", "inc"] ⟨"p", "y"⟩)).bind (ident fsTwoLevel) = some ⟨"dirA", "t"⟩ ∧
+    (find fsTwoLevel "t" (searchDirs fsTwoLevel ["inc2", "inc"] ⟨"real", "y"⟩)).bind (ident fsTwoLevel) = some ⟨"dirA", "t"⟩ := by
   decide
 
 /-- the order-free meaning of the two paths to `real/y` (`eval`, no cache): same real file, same direct include, another
@@ -263,9 +263,62 @@ example : eval fsShared [] 4 [] ⟨"q", "b"⟩ =
   rw [evalS_eq_l]
   decide +kernel
 
+/-! ### hard links: one file (device, inode), two real paths -/
+
+/-- `export/ids` is a HARD link to `src/ids`: its real path is itself (`target`), the file it denotes is `src/ids`
+    (`ident`, where the content is filed); `pub/ids` is a symbolic link to the hard link -/
+def fsHard : FS :=
+  ⟨[⟨⟨"src", "a"⟩, ⟨"src", "a"⟩, ⟨"src", "a"⟩⟩, ⟨⟨"export", "b"⟩, ⟨"export", "b"⟩, ⟨"export", "b"⟩⟩,
+    ⟨⟨"pub", "c"⟩, ⟨"pub", "c"⟩, ⟨"pub", "c"⟩⟩,
+    ⟨⟨"src", "ids"⟩, ⟨"src", "ids"⟩, ⟨"src", "ids"⟩⟩,
+    ⟨⟨"export", "ids"⟩, ⟨"export", "ids"⟩, ⟨"src", "ids"⟩⟩,
+    ⟨⟨"pub", "ids"⟩, ⟨"export", "ids"⟩, ⟨"src", "ids"⟩⟩],
+   [⟨⟨"src", "a"⟩, ["ids"], ["A"]⟩, ⟨⟨"export", "b"⟩, ["ids"], ["B"]⟩, ⟨⟨"pub", "c"⟩, ["ids"], ["C"]⟩,
+    ⟨⟨"src", "ids"⟩, [], ["I"]⟩]⟩
+
+/-- (1) `src/a` includes `src/ids`, `export/b` includes the hard link `export/ids`: one file - the run succeeds, both see the
+    same exports `["I"]` and the same include tree below them, and `ids` is parsed once (for the first input only) -/
+example : processMains fsHard [] [⟨"src", "a"⟩, ⟨"export", "b"⟩] {} = .ok
+    [(⟨"src", "a"⟩, ⟨["A"], ["I", "A"], [⟨"src", "a"⟩, ⟨"src", "ids"⟩], [(0, ⟨"src", "a"⟩), (1, ⟨"src", "ids"⟩)]⟩),
+     (⟨"export", "b"⟩, ⟨["B"], ["I", "B"], [⟨"export", "b"⟩], [(0, ⟨"export", "b"⟩), (1, ⟨"src", "ids"⟩)]⟩)] := by
+  rw [processMainsS_eq_l]
+  decide +kernel
+
+/-- the other order: now `ids` is parsed for `export/b` (reached as the hard link), and filed under the same identity -/
+example : processMains fsHard [] [⟨"export", "b"⟩, ⟨"src", "a"⟩] {} = .ok
+    [(⟨"export", "b"⟩, ⟨["B"], ["I", "B"], [⟨"export", "b"⟩, ⟨"src", "ids"⟩],
+        [(0, ⟨"export", "b"⟩), (1, ⟨"src", "ids"⟩)]⟩),
+     (⟨"src", "a"⟩, ⟨["A"], ["I", "A"], [⟨"src", "a"⟩], [(0, ⟨"src", "a"⟩), (1, ⟨"src", "ids"⟩)]⟩)] := by
+  rw [processMainsS_eq_l]
+  decide +kernel
+
+/-- (2) the same through a symbolic link to the hard link (`pub/ids -> export/ids`), all three inputs in one run -/
+example : processMains fsHard [] [⟨"src", "a"⟩, ⟨"pub", "c"⟩, ⟨"export", "b"⟩] {} = .ok
+    [(⟨"src", "a"⟩, ⟨["A"], ["I", "A"], [⟨"src", "a"⟩, ⟨"src", "ids"⟩], [(0, ⟨"src", "a"⟩), (1, ⟨"src", "ids"⟩)]⟩),
+     (⟨"pub", "c"⟩, ⟨["C"], ["I", "C"], [⟨"pub", "c"⟩], [(0, ⟨"pub", "c"⟩), (1, ⟨"src", "ids"⟩)]⟩),
+     (⟨"export", "b"⟩, ⟨["B"], ["I", "B"], [⟨"export", "b"⟩], [(0, ⟨"export", "b"⟩), (1, ⟨"src", "ids"⟩)]⟩)] := by
+  rw [processMainsS_eq_l]
+  decide +kernel
+
+/-- A on it: `eval` of the input that reaches the file through the symbolic link to the hard link -/
+example : eval fsHard [] 3 [] ⟨"pub", "c"⟩ = .ok (["C"], ["I", "C"], [(0, ⟨"pub", "c"⟩), (1, ⟨"src", "ids"⟩)]) := by
+  rw [evalS_eq_l]
+  decide +kernel
+
+/-- a hard link is one file but another PLACE: when `ids` includes `base`, which exists next to `src/ids` only, the
+    include cannot be found from `export/ids` (the real path of a hard link is itself: searched in `export` only), and the
+    cached result is refused for it -/
+example : processMains
+    ⟨⟨⟨"src", "base"⟩, ⟨"src", "base"⟩, ⟨"src", "base"⟩⟩ :: fsHard.entries,
+     [⟨⟨"src", "a"⟩, ["ids"], ["A"]⟩, ⟨⟨"export", "b"⟩, ["ids"], ["B"]⟩, ⟨⟨"src", "ids"⟩, ["base"], ["I"]⟩,
+      ⟨⟨"src", "base"⟩, [], ["K"]⟩]⟩ [] [⟨"src", "a"⟩, ⟨"export", "b"⟩] {} =
+    .error (.ambiguous ⟨"export", "ids"⟩ "base") := by
+  rw [processMainsS_eq_l]
+  decide +kernel
+
 /-- one real file under two base names: `types` is an alias link to `types_v2`, and `main` includes both -/
 def fsAlias : FS :=
-  ⟨[⟨⟨"d", "main"⟩, ⟨"d", "main"⟩⟩, ⟨⟨"d", "types_v2"⟩, ⟨"d", "types_v2"⟩⟩, ⟨⟨"d", "types"⟩, ⟨"d", "types_v2"⟩⟩],
+  ⟨[⟨⟨"d", "main"⟩, ⟨"d", "main"⟩, ⟨"d", "main"⟩⟩, ⟨⟨"d", "types_v2"⟩, ⟨"d", "types_v2"⟩, ⟨"d", "types_v2"⟩⟩, ⟨⟨"d", "types"⟩, ⟨"d", "types_v2"⟩, ⟨"d", "types_v2"⟩⟩],
    [⟨⟨"d", "main"⟩, ["types", "types_v2"], ["M"]⟩, ⟨⟨"d", "types_v2"⟩, [], ["T"]⟩]⟩
 
 /-- refused (`TwoNamesError`), in either order of the two includes; with one of the names only it compiles -/
@@ -281,7 +334,7 @@ example :
 
 /-- the same across two inputs: the second one uses the other name -/
 example :
-    processMains ⟨⟨⟨"d", "other"⟩, ⟨"d", "other"⟩⟩ :: fsAlias.entries,
+    processMains ⟨⟨⟨"d", "other"⟩, ⟨"d", "other"⟩, ⟨"d", "other"⟩⟩ :: fsAlias.entries,
         [⟨⟨"d", "main"⟩, ["types"], ["M"]⟩, ⟨⟨"d", "other"⟩, ["types_v2"], ["O"]⟩, ⟨⟨"d", "types_v2"⟩, [], ["T"]⟩]⟩ []
       [⟨"d", "main"⟩, ⟨"d", "other"⟩] {} = .error (.twoNames ⟨"d", "types_v2"⟩) := by
   rw [processMainsS_eq_l]
